@@ -53,12 +53,15 @@ def shard(binpath, seed, sh, ndocs, rsa_share):
         if rng.random() < 0.02:
             pool = ["rsa-4096-a", "rsa-3072-a"]
         signers = rng.sample(pool, rng.choice([1, 1, 2, 3]) if len(pool) > 2 else 1)
-        via = rng.choice(["new", "builder", "raw_builder"])
+        via = rng.choice(["new", "builder", "raw_builder", "api", "api_builder"])
         reqs.append({"op": "sign", "signed": doc, "signers": signers, "via": via, "writers": True})
         plans.append((doc, signers, via))
     sobs = common.run_batch(binpath, reqs)
     cases = []
     for (doc, signers, via), so in zip(plans, sobs):
+        if "ok" not in so and via.startswith("api") and "programming:" in str(so.get("err", "")):
+            res.classes["api_path_cannot_express_document"] += 1
+            continue
         if "ok" not in so:
             # every generated document is a representable layout or link: signing must work
             res.violate("sign-fails:" + via, f"library could not sign a representable document: {str(so)[:300]}",
@@ -133,7 +136,7 @@ def main(ctx):
              "{constructor, builder, raw builder} x {serde compact, serde pretty, Json writer, JsonPretty writer}; "
              "negatives: other key, bit flips, other PSS scheme; every case is non-trivial; distinct by SHA-256 of wire text",
         assumptions=["ring's primitives are correct", "serde_json is the wire reader"],
-        required=["positive_verified", "via:new", "via:builder", "via:raw_builder", "writer:pretty", "writer:cjson",
+        required=["positive_verified", "via:new", "via:builder", "via:raw_builder", "via:api", "via:api_builder", "writer:pretty", "writer:cjson",
                   "writer:cjson_pretty", "keys:ed", "keys:ec", "keys:rsa", "doc:link", "doc:layout",
                   "neg:one signature bit was flipped", "neg:verified under a different key",
                   "neg:the same RSA key material was declared with the other PSS scheme"],
